@@ -479,6 +479,32 @@ def check_fixed(case, v: Verdict):
                    f"grid with tails ({eom.grid.tailLengthInside * T:.3g}, {eom.grid.tailLengthOutside * T:.3g})/T: pressure {p!r} "
                    f"vs V_low-V_high {exact!r}: |err|/S={err / S:.3e} > envelope {envelope(eta, M0):.3e} at eta={eta:.1f} "
                    f"widths*T={shape['w']} offsets={shape['off']} T={T:.6g}", pressure=p, exact=exact, S=S, eta=eta)
+        # ... and after the user re-maps that grid directly (public Grid3Scales.changePositionFalloffScale) with ONE
+        # tail moderately lengthened, everything else as it is: positions and Jacobian must stay those of one map
+        g3 = eom.grid
+        for which in ("outside", "inside"):
+            ti, to = float(g3.tailLengthInside), float(g3.tailLengthOutside)
+            if which == "outside":
+                to *= 1.3
+            else:
+                ti *= 1.3
+            g3.changePositionFalloffScale(ti, to, float(g3.wallThickness), float(g3.wallCenter))
+            res = eom._intermediatePressureResults(
+                wp, WallGo.Fields(vl), WallGo.Fields(vh), -1.0, 1.0, vmid, zero_boltzmann(eom), T, T,
+                temperatureProfileInput=np.full(n, T), velocityProfileInput=np.full(n, vmid), multiplier=0)
+            p = float(res[0])
+            err = abs(p - exact)
+            # a tail 1.3x longer takes nodes away from the wall region: the envelope is taken at eta/1.3 (false alarm of
+            # the first version at rim shapes: 4.1e-5 S against 2.6e-5 S at eta = 17)
+            tol1 = envelope(eta / 1.3, M0) * S + rounding_floor(model, cf, vl, vh, Vabs, S, M0)
+            v.checked("fixed-pressure-remapped-one-tail")
+            v.info["worst_err_over_tol_one_tail"] = max(v.info.get("worst_err_over_tol_one_tail", 0.0), err / tol1)
+            if not np.isfinite(p) or err > tol1:
+                v.fail("fixed-pressure-remapped-one-tail", f"family={fam} shape={cls_shape} M={M0} tail={which}",
+                       f"grid re-mapped with the {which} tail x1.3 -> ({g3.tailLengthInside * T:.3g}, "
+                       f"{g3.tailLengthOutside * T:.3g})/T: pressure {p!r} vs V_low-V_high {exact!r}: |err|/S={err / S:.3e} "
+                       f"> envelope {envelope(eta / 1.3, M0):.3e} at eta/1.3={eta / 1.3:.1f} widths*T={shape['w']} offsets={shape['off']}",
+                       pressure=p, exact=exact, S=S, eta=eta)
         if case["shapes"].index(shape) < STEP_SHAPES:
             _check_step(v, eoms, case, shape, fam, model, cf, vl, vh, T, exact, widths, offs)
         for M1, M2 in ((40, 80), (60, 120)):
